@@ -51,14 +51,15 @@ def run_property(prop, tier='quick', repo=None, quiet=False, evidence=True,
         if tier == 'thorough':
             for fn in spec.get('thorough_rules', []):
                 fn(repo, col)
-        # vacuity guard
+        # vacuity guard (a definite violation stands whatever the
+        # coverage; the guard only protects passes from being vacuous)
         short = []
         for rule, need in spec['minima'].items():
             got = col.resolved(rule)
             if got < need:
                 short.append('%s: %d resolved obligations < %d confirmed by '
                              'hand' % (rule, got, need))
-        if short:
+        if short and not any(o.status == VIOLATED for o in col.obs):
             raise AnalysisError('vacuity guard: ' + '; '.join(short))
     except AnalysisError as e:
         say('ANALYSIS-ERROR property=%s %s' % (prop, e))
